@@ -64,6 +64,11 @@ func hostileMembers(cfg gen.Config) []member {
 	// type never consumes the schema — the run must end with an error, not hang
 	out = append(out, member{name: "self-reference as an allOf branch itself", cfg: cfg, root: &fam.Spec{Kind: "object", Props: []*fam.Prop{{Label: "u", Spec: &fam.Spec{Kind: "any", AllOf: []*fam.Spec{
 		{RefRootOf: "#", Kind: "object"}, {Kind: "object", Props: []*fam.Prop{{Label: "k", Spec: &fam.Spec{Kind: "string"}}}}}}}}}})
+	// ... and a DEFINITION whose own allOf / anyOf lists the definition itself
+	for _, k := range []string{"allof-self-definition", "anyof-self-definition"} {
+		d := &fam.Spec{Kind: "object", Ref: "$defs", ConcreteDef: "Selfish", Hostile: k}
+		out = append(out, member{name: k + " referenced by a property", cfg: cfg, root: &fam.Spec{Kind: "object", Props: []*fam.Prop{{Label: "r", Spec: d}}}})
+	}
 	return out
 }
 
